@@ -8,6 +8,7 @@ import (
 	"encoding/json"
 	"fmt"
 	"math/rand"
+	"sync"
 	"time"
 
 	"github.com/evolbioinfo/goalign/align"
@@ -63,7 +64,11 @@ func mkNtAlign(rows [][]int) align.Alignment {
 var modelPool = map[string]dna.DistModel{}
 var reuseModels = false
 
+var modelPoolMu sync.Mutex
+
 func mkModel(o distOpts) (dna.DistModel, error) {
+	modelPoolMu.Lock() // calls run in their own goroutines (a call that hangs never reports back)
+	defer modelPoolMu.Unlock()
 	key := fmt.Sprintf("%s/%v", o.Model, o.RmGaps)
 	m, ok := modelPool[key]
 	var err error
@@ -279,7 +284,9 @@ func distFamily(env *Env) error {
 		rows := randDistRows(rng, env.Tier)
 		L := len(rows[0])
 		o := randDistOpts(rng, L)
+		modelPoolMu.Lock()
 		reuseModels = rng.Intn(2) == 0
+		modelPoolMu.Unlock()
 		r := noRange
 		if rng.Intn(6) == 0 {
 			n := len(rows)
@@ -397,7 +404,8 @@ func init() { families["dist"] = distFamily }
 // faultyModel wraps a real model; its k-th Distance (resp. Sequence) call fails.
 type faultyModel struct {
 	inner    dna.DistModel
-	failDist int64 // 1-based index of the failing Distance call, 0 = never
+	failDist int64 // 1-based index of the first failing Distance call, 0 = never
+	failNb   int64 // number of consecutive failing calls (>= 1)
 	failSeq  int64
 	nd, ns   int64
 	mu       chan struct{}
@@ -413,7 +421,7 @@ func (f *faultyModel) Distance(s1, s2 []uint8, w []float64) (float64, error) {
 	f.nd++
 	k := f.nd
 	<-f.mu
-	if k == f.failDist {
+	if f.failDist > 0 && k >= f.failDist && k < f.failDist+f.failNb {
 		return 0, errInjected
 	}
 	return f.inner.Distance(s1, s2, w)
@@ -433,8 +441,8 @@ type concCfg struct {
 	Np  int `json:"np"`
 	Nw  int `json:"nw"`
 	Cap int `json:"cap"`
-	Fd  int `json:"fd"`
-	Fs  int `json:"fs"`
+	Fd  []int `json:"fd"`
+	Fs  int   `json:"fs"`
 }
 type concRun struct {
 	T    string  `json:"t"`
@@ -461,6 +469,14 @@ func pairIndex(n, i, j int) int {
 	return k + 1
 }
 
+func failIdx(first int) []int {
+	out := []int{}
+	for k := 0; first > 0 && k < faultNb; k++ {
+		out = append(out, first+k)
+	}
+	return out
+}
+
 // recordRun executes one DistMatrix call with the hooks recording, and returns the run in the vocabulary of
 // DistMatrixConc (pairs numbered in production order, workers numbered by first appearance).
 func recordRun(rows [][]int, o distOpts, cpus, failDist, failSeq int) *concRun {
@@ -470,10 +486,10 @@ func recordRun(rows [][]int, o distOpts, cpus, failDist, failSeq int) *concRun {
 	logs := stop()
 	verifhook.Hook = nil // every goroutine of DistMatrix is finished when it returns without hanging
 	if ev.Kind == "hang" || ev.Kind == "panic" {
-		return &concRun{T: "conc", Ret: ev.Kind, Logs: []*gLog{}, Rows: rows, FD: failDist, FS: failSeq}
+		return &concRun{T: "conc", Ret: ev.Kind, Logs: []*gLog{}, Rows: rows, FD: failDist, FS: failSeq, Cfg: concCfg{Fd: []int{}}}
 	}
 	n := len(rows)
-	run := &concRun{T: "conc", Cfg: concCfg{Np: n * (n - 1) / 2, Nw: cpus, Cap: 100, Fd: failDist}, Ret: "ok", Rows: rows, FD: failDist, FS: failSeq}
+	run := &concRun{T: "conc", Cfg: concCfg{Np: n * (n - 1) / 2, Nw: cpus, Cap: 100, Fd: failIdx(failDist)}, Ret: "ok", Rows: rows, FD: failDist, FS: failSeq}
 	if ev.Kind == "err" {
 		run.Ret = "err"
 	}
@@ -529,6 +545,8 @@ type faultEvent struct {
 	Procs    int      `json:"procs"`
 }
 
+var faultNb = 1 // number of consecutive failing evaluations injected by faultCall
+
 func faultCall(rows [][]int, o distOpts, cpus, failDist, failSeq int) (ev faultEvent) {
 	n := len(rows)
 	ev = faultEvent{T: "fault", Rows: rows, O: o, Cpus: cpus, FailDist: failDist, FailSeq: failSeq, NPairs: n * (n - 1) / 2, NSeqCall: n + n*(n-1)/2}
@@ -537,6 +555,7 @@ func faultCall(rows [][]int, o distOpts, cpus, failDist, failSeq int) (ev faultE
 		pan interface{}
 	}
 	done := make(chan res, 1)
+	nb := faultNb // read here: the goroutine below may outlive this call (a hang) and must not read shared variables
 	go func() {
 		defer func() {
 			if p := recover(); p != nil {
@@ -548,7 +567,7 @@ func faultCall(rows [][]int, o distOpts, cpus, failDist, failSeq int) (ev faultE
 			done <- res{err, nil}
 			return
 		}
-		fm := &faultyModel{inner: inner, failDist: int64(failDist), failSeq: int64(failSeq), mu: make(chan struct{}, 1)}
+		fm := &faultyModel{inner: inner, failDist: int64(failDist), failNb: int64(nb), failSeq: int64(failSeq), mu: make(chan struct{}, 1)}
 		_, err = dna.DistMatrix(mkNtAlign(rows), nil, fm, -1, -1, -1, -1, o.Gamma, 1, cpus)
 		done <- res{err, nil}
 	}()
@@ -589,6 +608,7 @@ func distConcFamily(env *Env) error {
 		np := n * (n - 1) / 2
 		cpus := []int{1, 2, 3, 4, 8, 16, 32}[rng.Intn(7)]
 		var ev faultEvent
+		faultNb = 1 + rng.Intn(3)
 		switch rng.Intn(3) {
 		case 0:
 			ev = faultCall(rows, o, cpus, 1+rng.Intn(np), 0)
@@ -627,6 +647,7 @@ func distTraceFamily(env *Env) error {
 		o := distOpts{Model: []string{"jc", "k2p", "pdist"}[rng.Intn(3)], Alpha: "1", Wts: []int{}}
 		cpus := 1 + rng.Intn(3)
 		fd, fs := 0, 0
+		faultNb = 1 + rng.Intn(3)
 		switch rng.Intn(3) {
 		case 0:
 			fd = 1 + rng.Intn(np)
